@@ -475,6 +475,8 @@ def r4(cx):
 READ_SITES = {
     # function (root) -> class
     'yash_builtin::read::input::read_char': 'one-byte',
+    # fix (audit C18h2 #1): after an encoding error the read built-in drains the rest of ITS line, byte by byte
+    'yash_builtin::read::input::skip_rest_of_line': 'one-byte',
     '<yash_env::input::fd_reader_2::FdReader2<S> as yash_env::input::Input>::next_line': 'one-byte',
     'yash_env::system::concurrency::<impl yash_env::system::io::Read for alloc::rc::Rc<yash_env::system::concurrency::Concurrent<S>>>::read': 'delegate',
     '<alloc::rc::Rc<S> as yash_env::system::io::Read>::read': 'delegate',
@@ -546,3 +548,45 @@ def r5(cx):
                          'after consuming the newline that ends a here-document line the lexer calls %s, which peeks at the next '
                          'character and so pulls the line FOLLOWING the delimiter into the lexer before the command runs: a command that '
                          'reads the same input (`cat <<END; read x`) loses that line' % pp.callee(t), loc=b.loc(t))
+
+
+# ---------------------------------------------------------------------------------------
+# added after the audit C18h2 #1 (fix: `read` left the rest of its data line on the shared descriptor after an invalid byte)
+@RS.rule('C18.R6', 'K-PASS', 'the read built-in consumes the line it was asked to read on EVERY exit, also when the line cannot be decoded: its '
+         'entry point has, after the decoding step, an error edge that runs a drain routine (a unit-valued loop of one-byte reads up to the '
+         'delimiter) - otherwise the rest of a data line is executed as the next command of a script read from the same descriptor')
+def r6(cx):
+    F = cx.F
+    fn = 'yash_builtin::read::input::read'
+    body = F.main_body(fn)
+    cx.fn(body.fn)
+    drains = []
+    for k, b in F.bodies.items():
+        if not k.startswith('yash_builtin::read::input::') or '::tests' in k or b.root == fn:
+            continue
+        reads = Q.find_calls(b, ['*::Read::read'])
+        if not reads:
+            continue
+        sig = F.fns.get(b.root) or {}
+        out = str(sig.get('output') or '').strip()
+        unit = out in ('()', '') or out.endswith('Output = ()>')
+        looping = any(blk in b.reachable(s_) for blk, t in reads for s_ in b.succ(blk))
+        if unit and looping:
+            drains.append(b.root)
+    drains = sorted(set(drains))
+    called = [(blk, t) for blk, t in body.calls() if any(pp.callee(t) == d or pp.callee(t).startswith(d) for d in drains)]
+    cx.site('read::input::read: drain routines %s; called on an exit path of the entry point: %s' % ([d.split('::')[-1] for d in drains], bool(called)))
+    if not called:
+        cx.violation(fn, 'line-not-drained-on-decoding-error', 'when the data line contains a byte that is not valid UTF-8 the read built-in returns '
+                     'at once, having consumed the line only up to that byte; with the script on the same descriptor the shell then executes the '
+                     'REST OF THE DATA LINE as a command: `read name` + `Jos\\351; echo INJECTED` prints INJECTED (bash runs the next script line; '
+                     'the manual promises that nothing of the remaining input is lost or misplaced)', loc=body.loc(body.d))
+        return
+    # the drain is conditional on the failure of the decoding step: it must be reachable from that step
+    steps = [(blk, t) for blk, t in body.calls() if pp.callee(t).startswith('yash_builtin::read::input::') and not any(pp.callee(t).startswith(d) for d in drains)]
+    cx.require(steps, 'read no longer delegates the decoding to a helper of its module (shape changed: review)')
+    if not any(cb in body.reachable(sb) for sb, st in steps for cb, ct in called):
+        cx.violation(fn, 'drain-not-after-decoding', 'the drain routine is not reachable from the decoding step', loc=body.loc(called[0][1]))
+
+
+RS.explanation += ' The read built-in drains its line after a decoding error (R6).'
